@@ -56,3 +56,17 @@ package core
 //@ func (*ObjectStream) GetObjectByIndex results (obj, num, err)
 //@   property C02
 //@   requires os.first >= 0 && os.n >= 0
+
+// Cross-reference streams: the /W widths and the /Index pairs come from the file.
+//@ func (*XRefParser) parseXRefStreamEntry results (entry, n, err)
+//@   property C02
+//@   requires len(w) == 3
+//@   ensures consumed: !err ==> n == w[0] + w[1] + w[2] && n <= len(data) && n >= 0
+
+//@ func (*XRefParser) parseXRefStream results (table, err)
+//@   property C02
+//@   callsite parseXRefStreamEntry(d, ws) requires ws[0] + ws[1] + ws[2] > 0
+//@   loop 2:
+//@     invariant 0 <= i && len(w) == 3 && 0 <= dataOffset && dataOffset <= len(data)
+//@   loop 3:
+//@     invariant 0 <= j && len(w) == 3 && 0 <= dataOffset && dataOffset <= len(data) && 0 <= i && i + 1 < len(index)
